@@ -56,15 +56,16 @@ RULE = ("worlds of 1..6 .rtdc files with basin definitions between them: all "
         "remote+hdf5, internal+hdf5; locations absolute, relative to the "
         "referrer, dangling; declared or undeclared feature lists; same and "
         "mapped (basinmapN) event mapping; hash keys and colliding custom "
-        "keys; root opened through new_dataset (RTDC_HDF5) and RTDC_HTTP on "
-        "127.0.0.1. Non-trivial: at least one basin is followed from the "
+        "keys; root opened through new_dataset (RTDC_HDF5), RTDC_HTTP and "
+        "RTDC_S3 (boto3, unsigned) on 127.0.0.1. Non-trivial: at least one basin is followed from the "
         "root; distinct = different case dict")
 TRUSTED_BASE = [
     "availability oracle: a location is available iff the generator created "
     "the file / the loopback server serves it (file system and HTTP server "
     "are not modelled)",
-    "not modelled: BasinAvailabilityChecker threads, S3 and DCOR transports "
-    "(only their basin type, their refusal of local basins and "
+    "not modelled: BasinAvailabilityChecker threads, the S3 transport "
+    "(boto3 against the loopback server; modelled like HTTP), the DCOR "
+    "transport (only its basin type, refusal of local basins and "
     "unavailability of unreachable endpoints), RecursionError path of a "
     "mapped basin whose basinmap feature is stored nowhere",
     "h5py iterates the 'basins' group by name (read back by the harness "
@@ -382,6 +383,12 @@ def observe(case, base, port):
     try:
         if root["fmt"] == "hdf5":
             ds = dclab.new_dataset(rootpath)
+        elif root["fmt"] == "s3":
+            from dclab.rtdc_dataset import fmt_s3
+            url = "http://127.0.0.1:%d/%s/%s" % (
+                port[0], port[1],
+                file_relpath(case, root["file"]).replace(os.sep, "/"))
+            ds = fmt_s3.RTDC_S3(url)
         else:
             url = "http://127.0.0.1:%d/%s/%s" % (
                 port[0], port[1],
@@ -516,7 +523,7 @@ def render(case, keyorder):
         files.append("mkFile %s %s %s %s" % (
             rid_lit(file_rid(f)), common.zlist(sorted(f["innate"])),
             common.zlist(sorted(f["internal"])), common.clist(bs)))
-    fm = "FHdf5" if case["root"]["fmt"] == "hdf5" else "FHttp"
+    fm = {"hdf5": "FHdf5", "http": "FHttp", "s3": "FS3"}[case["root"]["fmt"]]
     return "(%s, %s, %d%%nat)" % (common.clist(files), fm,
                                   case["root"]["file"])
 
@@ -550,7 +557,7 @@ def spec_edges(case, remote_always_match=False):
                     continue
                 if how == "rel" and b["kind"] != "file":
                     continue
-                if b["kind"] in ("s3", "dcor"):
+                if b["kind"] == "dcor":
                     continue      # never reachable in this environment
                 rid_t = file_rid(case["files"][tgt])
                 if rid_i is None:
@@ -634,17 +641,29 @@ def oracle(case, res):
             root["fmt"], res["touched"]), None)
     J, seen = spec_justified(case)
     start = (root["file"], net_root)
-    ok_files = {}
-    for (i, net) in seen:
-        ok_files.setdefault(i, set()).add(net)
+    if 99 in res["touched"]:
+        return ("a file outside the generated world was opened", None)
+    # files that may be opened by local path: reachable from a root opened
+    # from disk through local definitions only (whatever their identifiers:
+    # a candidate is opened to read its identifier)
+    local_ok = set()
     if not net_root:
-        extra = [t for t in res["touched"] if t != 99 and not any(
-            True for (i, net) in seen if i == t)]
-        # files probed for their identifier and rejected are opened too;
-        # only files outside the world are an error here
-        if 99 in res["touched"]:
-            return ("a file outside the generated world was opened", None)
-        del extra
+        local_ok.add(root["file"])
+        todo = [root["file"]]
+        while todo:
+            i = todo.pop()
+            for b in case["files"][i]["basins"]:
+                if b["kind"] in ("file", "remote-hdf5", "internal-hdf5"):
+                    for how, tgt in b["locs"]:
+                        if how != "nowhere" and tgt < len(case["files"]) \
+                                and tgt not in local_ok:
+                            local_ok.add(tgt)
+                            todo.append(tgt)
+    bad = [t for t in res["touched"] if t not in local_ok]
+    if bad:
+        return ("files %s were opened by local path although they are only "
+                "referenced from datasets accessed through a network format"
+                % bad, None)
     rootf = case["files"][root["file"]]
     for ft, src in enumerate(res["source"]):
         if src == -2:
@@ -684,8 +703,7 @@ def oracle(case, res):
     excess = sorted(set(res["fb"]) - J[start])
     if excess:
         J2, _ = spec_justified(case, remote_always_match=True)
-        start2 = start
-        if not (set(res["fb"]) - J2[start2]):
+        if not (set(res["fb"]) - J2[start]):
             return ("features_basin lists userdef%s which only a basin "
                     "that is not of type 'file' (appended without "
                     "verification) with a mismatching run identifier "
@@ -764,8 +782,11 @@ def rand_basin(rng, n, i, j, net_bias):
             "remote-hdf5" if r < 0.88 else "internal-hdf5" if r < 0.93 \
             else rng.choice(["s3", "dcor"])
     other = rng.randint(0, n - 1)
-    if kind in ("s3", "dcor"):
+    if kind == "dcor":
         locs = [("nowhere", rng.randint(0, 3))]
+    elif kind == "s3":
+        locs = rng.choice([[("here", j)], [("here", j)],
+                           [("nowhere", rng.randint(0, 3))]])
     elif kind == "file":
         locs = rng.choice([
             [("here", j)], [("here", j)], [("rel", j)], [("rel", j)],
@@ -794,7 +815,7 @@ def rand_basin(rng, n, i, j, net_bias):
 
 def gen_case(rng, max_files=6):
     n = rng.choice([1, 2, 2, 3, 3, 3, 4, 4, 5, 6][:4 + max_files])
-    net_root = rng.random() < 0.4
+    net_root = rng.random() < 0.42
     files = []
     scheme = rng.random()
     for i in range(n):
@@ -823,8 +844,10 @@ def gen_case(rng, max_files=6):
             f["basins"].append(_basin(
                 "internal", [("here" if rng.random() < 0.85 else "nowhere",
                               0)], decl, rng.randint(1, 3)))
-    return dict(root=dict(fmt="http" if net_root else "hdf5", file=0),
-                files=files)
+    rootfmt = "hdf5"
+    if net_root:
+        rootfmt = "s3" if rng.random() < 0.15 else "http"
+    return dict(root=dict(fmt=rootfmt, file=0), files=files)
 
 
 def graph_cases(n, rng, variants):
@@ -954,10 +977,6 @@ def run_cases(scratch, cases, nproc=None):
 
 
 # --------------------------------------------------------------------------
-def classify(case, desc, finding):
-    return finding
-
-
 def check_cases(run, cases, record=True):
     results = run_cases(run.scratch, cases)
     known = run.finding_ids()
